@@ -201,7 +201,43 @@ func clientOpts(c caseSpec, name string) rig.ClientOpts {
 		cl.DialContext = t.DialContext
 		dialTrackers.Store(cl, t)
 	}
+	if c.Transport == "udp" && c.Seed%3 == 0 {
+		// a narrow source port range in which most pairs are half busy (the odd port is taken by
+		// somebody else): the client has to give back the even port of every pair it tried
+		lo := uint16(20000 + (portBlocks.Add(1)%1500)*16)
+		prev := o.Mutate
+		o.Mutate = func(cl *gortsplib.Client) {
+			prev(cl)
+			cl.UDPSourcePortRange = [2]uint16{lo, lo + 15}
+			for k := uint16(0); k < 8; k++ {
+				if k == 2 || k == 5 {
+					continue // two pairs stay free
+				}
+				if pc, err := net.ListenPacket("udp", fmt.Sprintf(":%d", lo+2*k+1)); err == nil {
+					blockMu.Lock()
+					blockers = append(blockers, pc)
+					blockMu.Unlock()
+				}
+			}
+			run.Count("udp-clients-with-half-busy-source-port-pairs", 1)
+		}
+	}
 	return o
+}
+
+var (
+	portBlocks atomic.Int64
+	blockMu    sync.Mutex
+	blockers   []net.PacketConn // the harness's own sockets on odd ports, closed before each census
+)
+
+func closeBlockers() {
+	blockMu.Lock()
+	for _, b := range blockers {
+		_ = b.Close()
+	}
+	blockers = nil
+	blockMu.Unlock()
 }
 
 var dialTrackers sync.Map // *gortsplib.Client -> *rig.DialTracker
@@ -557,6 +593,7 @@ func rigNewClient(ts *rig.TestServer, o rig.ClientOpts) (*gortsplib.Client, stri
 
 // census checks that nothing of the closed objects remains.
 func census(batch []caseSpec, baseSockets int) {
+	closeBlockers()
 	if aborted.Load() {
 		return
 	}
